@@ -448,7 +448,8 @@ func TestC08(t *testing.T) {
 						// (2^14, 2^14+256, the TLS 1.2 limit 2^14+2048) and their neighbours
 						lv := uniform(t, label+"_lv", 1<<16)
 						if rapid.IntRange(0, 2).Draw(t, label+"_lvb") != 0 {
-							lv = []int{16384, 16385, 16386, 16639, 16640, 16641, 16642, 17000, 18431, 18432, 18433, 20000, 32767, 32768, 65535}[uniform(t, label+"_lvi", 15)]
+							// ... and on the top of the 16-bit range, where header + length no longer fits 16 bits
+							lv = []int{16384, 16385, 16386, 16639, 16640, 16641, 16642, 17000, 18431, 18432, 18433, 20000, 32767, 32768, 65535, 65530, 65531, 65532, 65533, 65534, 65531, 65535}[uniform(t, label+"_lvi", 22)]
 						}
 						binary.BigEndian.PutUint16(r[3:], uint16(lv))
 					}
